@@ -253,7 +253,7 @@ GRAPH_TRUST = [
     "canon(s) is s or rc(s) and canon(rc s) == canon(s) (axiom_canon; the real min_rc / min_rc_flip are proved to compute the lexicographic minimum by Kani family k_min_rc)",
 ]
 
-COMPGRAPH_FNS = r"^CompressFromGraph::|^Node::(len|data)$|^BaseGraph::(new|add)$|^lemma_(npush|rel_push|nfold_ids)$"
+COMPGRAPH_FNS = r"^CompressFromGraph::|^Node::(len|data)$|^BaseGraph::(new|add)$|^lemma_(npush|rel_push|nfold_ids|rc_first|rc_last|rc_bases|ext_bases2|overlap_rc|merged_shape|merged_windows|ncompress_kmers)$"
 # unit buildnode: everything except the k-mer level core it re-includes (that is counted once, in unit compress)
 BUILDNODE_FNS = r"^(?!CompressFromHash::(extend_kmer|try_extend_kmer|get_kmer_data|get_kmer_id)$|Dir::|Exts::)"
 
@@ -359,11 +359,11 @@ PROPS["C09"] = {
     "bounded": lambda tier: [],
     "design_ref": "DESIGN.md §6 C09",
     "undecided": [
-        "k-mer level content of the result: the sequence of an output node is only known as 'what DebruijnGraph::sequence_of_path spells for its node path' (path_seq_of: enumerate + reference patterns are outside the Verus subset; assumed contract, spelled sequence abstract), so 'k-mers of the result == k-mers of the non-censored nodes' is decided at NODE granularity only",
+        "k-mer level: the output sequence of a node is DEFINED as what the proven step of sequence_of_path folds to over the node's path (path_seq_of; the loop header of sequence_of_path itself - enumerate + reference pattern - is assumed to apply that step in order), consecutive path entries are proved to overlap by K-1 bases, and lemma_merged_windows / lemma_ncompress_kmers prove that the output node then spells exactly the k-mers of its path's old nodes, entry by entry, nothing more; what is NOT stated as one formula is the multiset equality 'k-mers of the result == k-mers of the non-censored nodes' (it is the conjunction of that lemma with npartition_ok)",
         "maximality of the merged paths as a whole-run statement, idempotence, agreement with the direct route. Per merged node the link facts ARE part of build_node's contract (nbuild_post: every step of both walks was a link that find_link resolves to an available, non-palindromic, join-accepted node with a sole facing extension - nstep_ok -, and both walks stopped only where the node may not leave or the resolved link is not acceptable - nstop), but they are not lifted into the whole-run statement (orientation bookkeeping of the assembled path)",
         "BaseGraph::finish (parallel boomphf index construction) and the closing debug_assert!(is_compressed) are outside the Verus subset; the final fix_exts(None) is covered by fix_exts' own contract"],
     "trust": VERUS_TRUST + GRAPH_TRUST + [SEAM_NOTE],
-    "level_text": "NODE-LEVEL whole-run statement as a machine-checked postcondition of the real compress_graph up to (not including) finish() (Verus, unbounded; wrapper compress_graph_core around the statement range, rule R15; ncompress_post in verus/units/compgraph.rs.tmpl): there is an assignment of old-graph nodes to (output node, position) such that every output node is a non-empty path of pairwise different SURVIVING nodes (not censored), no old node lies on two paths or twice on one, EVERY surviving node lies on some path, each output sequence is what sequence_of_path spells for that path, and each output payload is the caller's reduction folded over exactly the payloads of the path's nodes (seed first, then leftwards, then rightwards). Underneath, all on real bodies: the availability loops (all nodes minus the censor list), fix_exts(Some(&available)) (exact pruning: no extension left pointing at a censored or absent node, nothing else dropped) and the lemma that after it every listed extension resolves; the WHOLE of the node-level build_node (both walks, both assembly loops, terminal extensions; rules R16/R17); extend_node (terminates, takes exactly the start node and the walked nodes out of the available set, returns the last node's far extensions); try_extend_node (panic-free, Unique only along a link that find_link resolves to an available, non-palindromic, join-accepted node with a sole facing extension; Terminal otherwise); BaseGraph::new/add.",
+    "level_text": "NODE-LEVEL whole-run statement as a machine-checked postcondition of the real compress_graph up to (not including) finish() (Verus, unbounded; wrapper compress_graph_core around the statement range, rule R15; ncompress_post in verus/units/compgraph.rs.tmpl): there is an assignment of old-graph nodes to (output node, position) such that every output node is a non-empty path of pairwise different SURVIVING nodes (not censored), no old node lies on two paths or twice on one, EVERY surviving node lies on some path, each output sequence is what sequence_of_path spells for that path - consecutive old nodes on it overlap by K-1 bases, so (lemma_merged_windows, lemma_ncompress_kmers) it spells exactly the k-mers of those old nodes, in order, and nothing else -, and each output payload is the caller's reduction folded over exactly the payloads of the path's nodes (seed first, then leftwards, then rightwards). Underneath, all on real bodies: the availability loops (all nodes minus the censor list), fix_exts(Some(&available)) (exact pruning: no extension left pointing at a censored or absent node, nothing else dropped) and the lemma that after it every listed extension resolves; the WHOLE of the node-level build_node (both walks, both assembly loops, terminal extensions; rules R16/R17); extend_node (terminates, takes exactly the start node and the walked nodes out of the available set, returns the last node's far extensions); try_extend_node (panic-free, Unique only along a link that find_link resolves to an available, non-palindromic, join-accepted node with a sole facing extension; Terminal otherwise); BaseGraph::new/add.",
     "level_note": "Hypothesis (stated in the contract where it is used, sym_hyp): in the pruned graph a link between two surviving nodes is listed from both ends - without it try_extend_node's panic!(\"unreachable\") is reachable. Assumed: BoomHashMap end indices (graph well-formedness), BitSet, sequence_of_path (abstract), PackedDnaStringSet::add and iteration over &DnaString, D::clone via vstd `cloned`, the Kmer seam. Everything at k-mer granularity is listed under undecided_clauses.",
 }
 
